@@ -259,11 +259,11 @@ func cmdCheck(args []string) {
 				}
 			}
 		}
-		if len(again) > 0 && len(again) <= 40 {
+		if len(again) > 0 && len(again) <= 8 {
 			for _, o := range again {
 				o.Retried = true
 			}
-			vc.Discharge(again, vc.SolveOpts{Timeout: 6 * timeout, Workers: 4, TmpDir: work})
+			vc.Discharge(again, vc.SolveOpts{Timeout: 6 * timeout, Workers: 8, TmpDir: work})
 		}
 	}
 	// expected obligations
